@@ -178,7 +178,7 @@ def dstep (s : DState) (toks : List String) : DState × List String :=
         ({ s' with nextTok := if resizes then s.nextTok + 1 else s.nextTok }, ["ok"])
       | none => (s, ["bad-op"])
     | _, _ => (s, ["bad-op"])
-  | ["newfb", w, h, b, _seed] =>
+  | ["newfb", w, h, b, _seed] | ["newfbraw", w, h, b, _seed] =>
     match ints? [w, h, b] with
     | some [w, h, b] =>
       if !s.haveScreen || w < 1 || h < 1 || !validB b then (s, ["bad-op"]) else
